@@ -38,6 +38,12 @@ inductive Cell where
   | other (name : String)
   deriving DecidableEq, Repr
 
+/-- the column types the matching `np.genfromtxt` parsers declare: `f8`, `U<n>` -/
+inductive Dtype where
+  | f8
+  | u (n : Nat)
+  deriving DecidableEq, Repr
+
 /-- the values a writer formats -/
 inductive Value where
   | str (s : Str)
